@@ -167,3 +167,71 @@ def format_rule(chk, facts, rule, unit_names):
             if (l, m) not in used:
                 chk.ob(rule, '%s:line-diagnostic:%s' % (un, m[:40]), False, '%s:%d' % (un, l), m)
     return n
+
+
+_phase_cache = {}
+
+
+def asl_phases(facts, P):
+    """Phases of one assembler run, from AssembleFile()'s CFG: FILE_INIT (calls
+    before the pass loop), PASS_INIT (calls inside the loop that precede
+    ProcessFile), BODY (closure of ProcessFile), PASS_EXIT (after ProcessFile,
+    inside the loop), FILE_EXIT (after the loop).  Values are closures in the
+    resolved call graph; *_roots are the directly called functions."""
+    if id(P) in _phase_cache:
+        return _phase_cache[id(P)]
+    af = facts.func('as.c', 'AssembleFile')
+    pf = None
+    for b, i, ln, n in af.calls('ProcessFile'):
+        pf = (b, i)
+    if pf is None:
+        raise AnalysisBroken('AssembleFile: call of ProcessFile not found')
+    loop = None
+    for (h, s0) in af.loops():
+        body = af.loop_body(h, s0)
+        if pf[0] in body and (loop is None or len(body) < len(loop[2])):
+            # innermost loop that contains ProcessFile and is a do-loop over passes
+            if af.blocks[h].get('term', [''])[0] == 'DoStmt':
+                loop = (h, s0, body)
+    if loop is None:
+        raise AnalysisBroken('AssembleFile: pass loop not found')
+    h, s0, body = loop
+    reach_pf = set()    # blocks from which pf is reachable without passing the loop header again
+    preds = af.preds()
+    work = [pf[0]]
+    while work:
+        b = work.pop()
+        if b in reach_pf:
+            continue
+        reach_pf.add(b)
+        for p, l in preds.get(b, ()):
+            if p != h:
+                work.append(p)
+    after_pf = af.reach_forward([pf[0]], block_stop=lambda b: b == h)
+    roots = {'FILE_INIT': set(), 'PASS_INIT': set(), 'PASS_EXIT': set(), 'FILE_EXIT': set()}
+    for b, i, ln, n in af.calls():
+        cn = callee_name(n)
+        t = P.resolve(af.unit, cn) if cn else None
+        if t is None or cn == 'ProcessFile':
+            continue
+        inloop = b in body
+        before = (b in reach_pf) and not (b == pf[0] and i > pf[1])
+        if b == pf[0]:
+            before = i < pf[1]
+        if inloop and before:
+            roots['PASS_INIT'].add(t)
+        elif inloop:
+            roots['PASS_EXIT'].add(t)
+        elif before:
+            roots['FILE_INIT'].add(t)
+        else:
+            roots['FILE_EXIT'].add(t)
+    res = {k + '_roots': v for k, v in roots.items()}
+    for k, v in roots.items():
+        res[k] = P.closure(v)
+    res['BODY'] = P.closure([facts.func('as.c', 'ProcessFile')])
+    res['AssembleFile'] = af
+    res['loop'] = loop
+    res['pf'] = pf
+    _phase_cache[id(P)] = res
+    return res
